@@ -12,7 +12,13 @@ import (
 
 // Expr is a node of a generated expression tree.
 type Expr interface {
-	render(b *strings.Builder)
+	render(b *rb)
+}
+
+// rb is the text being rendered, with the path separator names are spelled with.
+type rb struct {
+	strings.Builder
+	sep string
 }
 
 // Lit is a parse-inert literal token (letters, digits; never a keyword or number).
@@ -40,21 +46,21 @@ type Name struct {
 	Nested *Ref   // "${${x}}": the name is the value of another reference
 }
 
-func (l Lit) render(b *strings.Builder) { b.WriteString(string(l)) }
-func (e Esc) render(b *strings.Builder) { b.WriteString("$" + string(rune(e))) }
-func (n Name) render(b *strings.Builder) {
+func (l Lit) render(b *rb) { b.WriteString(string(l)) }
+func (e Esc) render(b *rb) { b.WriteString("$" + string(rune(e))) }
+func (n Name) render(b *rb) {
 	if n.Nested != nil {
 		n.Nested.render(b)
 		return
 	}
-	b.WriteString(n.Path)
+	b.WriteString(strings.ReplaceAll(n.Path, ".", b.sep))
 }
-func (r *Ref) render(b *strings.Builder) {
+func (r *Ref) render(b *rb) {
 	b.WriteString("${")
 	r.Name.render(b)
 	b.WriteString("}")
 }
-func (o *Op) render(b *strings.Builder) {
+func (o *Op) render(b *rb) {
 	b.WriteString("${")
 	o.Name.render(b)
 	switch o.Kind {
@@ -68,15 +74,18 @@ func (o *Op) render(b *strings.Builder) {
 	o.Arg.render(b)
 	b.WriteString("}")
 }
-func (c Cat) render(b *strings.Builder) {
+func (c Cat) render(b *rb) {
 	for _, e := range c {
 		e.render(b)
 	}
 }
 
-// Render gives the text of an expression.
-func Render(e Expr) string {
-	var b strings.Builder
+// Render gives the text of an expression, names spelled with "." as the path separator.
+func Render(e Expr) string { return RenderSep(e, ".") }
+
+// RenderSep gives the text of an expression, names spelled with the separator sep.
+func RenderSep(e Expr, sep string) string {
+	b := rb{sep: sep}
 	e.render(&b)
 	return b.String()
 }
